@@ -253,6 +253,13 @@ func markDead(m *Model, w *ledger.World, bc *ledger.BlockCtx, v *txnView) {
 	}
 	_ = json.Unmarshal(v.T.SmartContractData.InputData, &req)
 	p := m.Find(kindOfKillFn(v.Fn), req.ID)
+	for _, d := range v.Pools {
+		if p == nil || (d.Key != p.PoolKey() && d.Key != p.ProvKey()) {
+			if d.New != nil {
+				m.Strays[d.Key] = v.Fn
+			}
+		}
+	}
 	if p == nil || p.Dead {
 		return
 	}
